@@ -198,7 +198,10 @@ public:
     }
     void state(uint64_t h) { acc.statesSeen.push_back(h); }
     void transition(int64_t n = 1) { acc.transitions += n; }
-    void outcome(uint64_t h) { acc.outcomes.push_back(h); if (acc.outcomes.size() > 200000) compact(acc.outcomes); }
+    // compact when the buffer has doubled since the last compaction (a fixed threshold would re-sort on every call once the number
+    // of DISTINCT outcomes of one worker exceeds it: quadratic with few workers)
+    void outcome(uint64_t h) { acc.outcomes.push_back(h); if (acc.outcomes.size() > outcomesCap) { compact(acc.outcomes); outcomesCap = std::max<size_t>(200000, 2 * acc.outcomes.size()); } }
+    size_t outcomesCap = 200000;
     void sample(const std::string& s) { if (acc.samples.size() < maxSamples) acc.samples.push_back(s); }
     // an oracle comparison: value must be <= bound (NaN fails). Returns true if ok.
     bool residual(const std::string& oracle, double value, double bound,
